@@ -271,6 +271,53 @@ func runC08(c *ctx) {
 			}
 		}
 	}
+	// 3b. structured probes (sizes 3..8): boards that differ only in the KINDS or COLOURS of the tops of two squares
+	// i < j (the flat/wall/capstone roles swapped, a colour swapped): distinct positions, must hash differently
+	for g := 0; g < 200*c.scale; g++ {
+		size := 3 + g%6
+		base, _, _ := constructedBoard(r, size, 3, 0.3+0.4*r.Float64())
+		b := boardOf(base)
+		cfg := base.Config()
+		n := size * size
+		i, j := r.Intn(n), r.Intn(n)
+		if g%2 == 0 && n > 32 { // pairs 32 apart: the two halves of a 64-bit word
+			i = r.Intn(n - 32)
+			j = i + 32
+		}
+		if i == j {
+			continue
+		}
+		mk := func(ki, kj tak.Kind, ci, cj tak.Color) *tak.Position {
+			b2 := make([][]tak.Square, size)
+			for y := range b {
+				b2[y] = append([]tak.Square(nil), b[y]...)
+			}
+			b2[i/size][i%size] = tak.Square{tak.MakePiece(ci, ki)}
+			b2[j/size][j%size] = tak.Square{tak.MakePiece(cj, kj)}
+			cfg2 := cfg
+			cfg2.Pieces, cfg2.Capstones = 0, 0
+			fitReserves(r, &cfg2, b2)
+			cfg2.Capstones += 2
+			q, err := tak.FromSquares(cfg2, b2, base.MoveNumber())
+			if err != nil {
+				return nil
+			}
+			return q
+		}
+		kinds := []tak.Kind{tak.Flat, tak.Standing, tak.Capstone}
+		ka, kb := kinds[r.Intn(3)], kinds[r.Intn(3)]
+		if ka == kb {
+			kb = kinds[(r.Intn(2)+1+int(ka)-1)%3]
+		}
+		p1, p2 := mk(ka, kb, tak.White, tak.White), mk(kb, ka, tak.White, tak.White)
+		if p1 != nil && p2 != nil {
+			emitPair(c, p1, p2, "kinds-swapped")
+		}
+		p3, p4 := mk(ka, ka, tak.White, tak.Black), mk(ka, ka, tak.Black, tak.White)
+		if p3 != nil && p4 != nil {
+			emitPair(c, p3, p4, "colours-swapped")
+		}
+	}
 	// 4. census: distinct positions of one size must not share a hash (exploration, not proof)
 	perSize := 30000 * c.scale
 	for size := 3; size <= 8; size++ {
